@@ -198,7 +198,7 @@ class ChallengeField(Field):
         """
         Set default value by creating a :class:`DigestValue` if the default value is a string.
         """
-        if self.default is None:
+        if self.default is None or self._get_env_value(cfg) is not None:
             super().__setdefault__(cfg)
             return
 
